@@ -138,7 +138,15 @@ def enclosing_decl(path, line):
 
 def obligations_of(pid):
     reg = json.load(open(os.path.join(LEAN_DIR, 'obligations.json')))
-    return reg.get(pid, {'module': f'Depccg.Props.{pid}', 'theorems': [], 'open': []})
+    ob = reg.get(pid, {'module': f'Depccg.Props.{pid}', 'theorems': [], 'open': []})
+    if ob.get('dynamic') == 'generated':
+        # one theorem per generated table module (their number follows the data files)
+        gen = os.path.join(LEAN_DIR, 'Depccg', 'Generated')
+        names = sorted(fn[:-5] for fn in os.listdir(gen) if fn.startswith('Shipped') and fn.endswith('.lean'))
+        ob = dict(ob)
+        ob['theorems'] = list(ob['theorems']) + [f'Depccg.Generated.{n}.all_ok' for n in names] \
+            + ['Depccg.Generated.CatDict.within_targets']
+    return ob
 
 
 def audit_axioms(pid, theorems, module):
